@@ -17,6 +17,8 @@ CONSTANTS
   AllowProgress = FALSE
   PreFF = {FALSE}
   Coded = {}
+  SubErrs = {"failure", "error", "none"}
+  DetIds = {"fresh"}
 CONSTRAINT ExportC
 INVARIANT Verdict
 INVARIANT TagsScoped
